@@ -41,6 +41,8 @@ def run(idx: Index, rep: Report, tier: str):
     check_encoder_args(idx, rep)
     check_circuit_assembly(idx, rep)
     check_deflation(idx, rep)
+    from ..rules.options import check_option_passthrough
+    check_option_passthrough(idx, rep, "K7.option-passthrough", idx.function(f"{VQE}::VQESolver.__init__"), minimum=4)      # deflation_coeff = 0 means no deflation
     # operator_expectation("N" | "Sz" | "S^2") evaluates the built-in operators: they have to be the physical ones
     from . import C12
     C12.check_symmetry_operators(idx, rep, "quick")
@@ -297,8 +299,44 @@ def check_deflation(idx: Index, rep: Report):
                 return ["K^"]
             if t == "circuit.inverse()":
                 return ["U^"]
+            if isinstance(e, ast.Name):
+                defs = [x.value for x in ast.walk(lp) if isinstance(x, ast.Assign) and len(x.targets) == 1 and norm(x.targets[0]) == e.id]
+                if len(defs) == 1:
+                    return word(defs[0])              # a local name for the overlap circuit
             return None
         return word(call.args[0]) if call.args else None
+
+    class _W:
+        """stand-in for a circuit of a given width: `+` gives the wider of the two, inverse() and copy() keep the width"""
+        _sa_model = True
+
+        def __init__(self, width):
+            self.width = width
+
+        def __add__(self, o):
+            return _W(max(self.width, o.width))
+
+        def inverse(self):
+            return _W(self.width)
+        copy = inverse
+
+    def key_lengths(call: ast.Call, key: ast.AST):
+        """(length of the outcome string looked up, width of the circuit that was simulated) for two assignments of widths to the ansatz circuit, the
+        evaluated circuit (reference + ansatz + projective part) and the deflation circuit"""
+        out = []
+        for wa, wu, wk in ((2, 3, 5), (4, 6, 3), (3, 3, 3)):
+            fo = Folder(env={var: _W(wk), "circuit": _W(wu), "self.ansatz.circuit": _W(wa), "self.ansatz.circuit.width": wa})
+            try:
+                for st in lp.body:
+                    if isinstance(st, ast.Assign) and not any(isinstance(x, ast.Call) and norm(x.func).endswith("simulate") for x in ast.walk(st.value)):
+                        fo.stmt(st)
+                sim = fo.expr(call.args[0])
+                k = fo.expr(key)
+            except (Undecidable, Raised, AttributeError, TypeError):
+                out.append((None, None))
+                continue
+            out.append((k, getattr(sim, "width", None)))
+        return out
 
     def unk(n):
         t = norm(n)
@@ -309,17 +347,13 @@ def check_deflation(idx: Index, rep: Report):
             call = sims[norm(n.func.value)][1]
             w = state_of(call)
             okw = w in (["K", "U^"], ["U", "K^"])
-            keys = []
-            for width in (1, 3):
-                fo = Folder(env={"self.ansatz.circuit.width": width, "circuit.width": width})
-                try:
-                    keys.append(fo.expr(n.args[0]))
-                except (Undecidable, Raised):
-                    keys.append(None)
-            okk = keys == ["0", "000"] and len(n.args) == 2 and norm(n.args[1]) in ("0", "0.0", "0.")
+            kl = key_lengths(call, n.args[0])
+            keys = [k for k, _ in kl]
+            okk = all(isinstance(k, str) and w is not None and k == "0" * w for k, w in kl) and len(n.args) == 2 and norm(n.args[1]) in ("0", "0.0", "0.")
             found.append(("ok" if okw and okk else "bad", n,
                           ("" if okw else f"overlap circuit is {' then '.join(w) if w else norm(call.args[0])}, not U_k followed by U^dagger; ") +
-                          ("" if okk else f"outcome looked up is {keys} with default {norm(n.args[1]) if len(n.args) > 1 else 'none'}, not the all-zero string with default 0")))
+                          ("" if okk else f"outcome looked up is {keys} for simulated circuits of widths {[w for _, w in kl]} (default {norm(n.args[1]) if len(n.args) > 1 else 'none'}): not the "
+                                               f"all-zero string of the simulated circuit's width with default 0 - a wider reference, projective or deflation circuit makes the lookup miss")))
             return pov
         # (b) squared modulus of an inner product of two statevectors
         if isinstance(n, ast.BinOp) and isinstance(n.op, ast.Pow) and norm(n.right) == "2" and isinstance(n.left, ast.Call) and norm(n.left.func) in ("abs", "np.abs", "np.absolute") \
